@@ -118,8 +118,10 @@ func (s *GRPCServer) Init() error {
 // Stop calls Stop on the underlying grpc.Server and Close on the underlying
 // grpc.Broker if present.
 func (s *GRPCServer) Stop() {
-	s.server.Stop()
+	// The broker first: once the server has stopped, Serve returns and the
+	// plugin process may exit before the brokered listeners are closed.
 	s.closeBroker()
+	s.server.Stop()
 }
 
 // closeBroker closes the broker once; Stop and GracefulStop may be called
@@ -137,8 +139,8 @@ func (s *GRPCServer) closeBroker() {
 // GracefulStop calls GracefulStop on the underlying grpc.Server and Close on
 // the underlying grpc.Broker if present.
 func (s *GRPCServer) GracefulStop() {
-	s.server.GracefulStop()
 	s.closeBroker()
+	s.server.GracefulStop()
 }
 
 // Config is the GRPCServerConfig encoded as JSON then base64.
